@@ -66,6 +66,86 @@ P = {
        "step relation; requests above an ancestor's cap wait until Close (reading, Appendix B); LastUsed is specified for "
        "limiters still linked into the tree.",
   ref="DESIGN.md section 5 C16"),
+ "C04": dict(
+  text="36 Lean theorems about the executable byte-level model of String/StringWithSign/Comma/CommaWithSign/FromString/"
+       "Unmarshal*/Unquote/integer As and CheckedAs of f64.Int and f128.Int: toString_exact and toString_canonical, "
+       "fromString_toString for every raw value incl. Min (through the wrap-around) and every configuration of the regenerated "
+       "table, comma and with-sign forms parse back, fromString_literal (every plain literal with at least one digit whose "
+       "truncated value is representable gives that value truncated to D places), fromString_total (no panic on any byte "
+       "string), checkedAs_int_iff and as_eq_checkedAs. ~275k lines per quick run over all 16 configurations of both types.",
+  note="float-target CheckedAs/As and exponent literals are outside the model: judged by an implementation-side oracle built "
+       "from big.Rat and strconv (two-sided: succeeds iff the nearest float's shortest decimal is the number's own text); "
+       "encoding/json and yaml.v3 round trips are an identity oracle; literals whose value is not representable wrap (f64) or "
+       "saturate (f128) and are compared model-vs-code only (reading, Appendix B); f64 CheckedAs to unsigned targets accepts "
+       "negative whole numbers because converting back yields the original (transcribed, not alarmed).",
+  ref="DESIGN.md section 5 C04"),
+ "C05": dict(
+  text="Translation validation: the clipper is not modelled; every individual call of the real Union/Intersect/Sub/Xor (float32 "
+       "and float64) is judged by an executable Lean even-odd oracle in exact dyadic arithmetic whose soundness is proved "
+       "(17 theorems): validateLattice_sound (+ outside the square, + emptiness) makes the per-call verdict universal over all "
+       "points of all open cells for rectilinear lattice inputs; validatePoints_sound for general-position inputs on sample "
+       "points that provably keep a margin from every edge; xor_concat, inside_rotate/reverse, exactness of the float decoding. "
+       "~67k calls / 3.6M judgements per quick run; operands deep-compared, panics caught.",
+  note="nothing universal about the clipper over inputs is proved; general-position inputs are judged on sample points only; "
+       "7 degenerate non-rectilinear lattice inputs on which the clipper panics or returns a wrong region are KNOWN FINDINGS "
+       "(known_findings.json, fixed enumerated corpus) - the repair is not a small patch.",
+  technique="per-call validation by a Lean oracle with a proved soundness theorem (translation validation)",
+  ref="DESIGN.md section 5 C05"),
+ "C06": dict(
+  text="24 Lean theorems about a functional model that performs the same rotations and recolourings as the Go loops (validated "
+       "node for node through a -overlay dump): run_inv (red-black invariants after every history, any compare function), "
+       "height_le 2*log2(n+1), insert_inorder (stable insertion), remove_inorder (erases the FIRST equal entry), inorder_run/"
+       "count_run (refinement to the sorted association list), get_first, first_last, traverse and traverseFrom specs with the "
+       "visitor cut, comparison-count bounds (find <= height, insert <= height+1). ~1.5M operations per quick run with "
+       "identical compare counts demanded.",
+  note="compare assumed a total preorder (explicit hypothesis, proved for the driver's two modes); parent pointers and Go "
+       "recursion depth are outside the model (parent links checked at run time by the overlay's inv op); shape/count "
+       "observables are model detail: a mismatch only there is reported without a concrete failing input.",
+  ref="DESIGN.md section 5 C06"),
+ "C10": dict(
+  text="26 Lean theorems about the executable byte-level model of CmdLine.Parse (option table construction, three-state "
+       "scanner, rune-aware short-option loop, @file expansion with the seen guard, typed Set for bool/integer/string kinds): "
+       "parse_render for every valid spelling and arbitrary rune names, positional_tail_verbatim, unmentioned_untouched, "
+       "last_assignment_wins, slice_appends, response_split / response_inline, malformed_fatal. Each line declares options "
+       "over all 28 pointer types; possibly-malformed vectors run in a child process and the exit path is observed.",
+  note="float and duration acceptance is taken from strconv/time results computed by the generator (parameter of the model); "
+       "not claimed (Appendix B): a first positional that starts with '-' or '@' without '--', a response-file reference in "
+       "value position, response-file lines with newlines/CR/over 64 KiB.",
+  ref="DESIGN.md section 5 C10"),
+ "C12": dict(
+  text="24 Lean theorems about the sequential state machine of rotation.Rotator (Write with its retry as a step function, the "
+       "rename chain, Close, re-open with size from Stat, New with options and regenerated defaults): write_terminates (<= 2 "
+       "passes), write_whole, retained_is_suffix over every history, retained_whole until more than MaxBackups+1 files are "
+       "filled, size_bound, backup_count, preexisting_appended, close/reopen laws, serialised_writers. Every Write runs under "
+       "a deadline (a hang is an output, not a hung check); the whole directory is compared after every operation.",
+  note="atomicity of a call under concurrency is assumed from the mutex (sequential model): 'concurrent writers never "
+       "interleave bytes' is evidenced only by the stress oracle incl. a -race build; file-system error paths and WithMask are "
+       "not modelled.",
+  ref="DESIGN.md section 5 C12"),
+ "C15": dict(
+  text="17 Lean theorems over the transition system of the dispatcher protocol (24 rules: submitters, in/tasks/ready channels, "
+       "dispatcher program counter at every blocking point, backlog, workers, recovery handler, Shutdown) for all worker counts "
+       ">= 1, all depths, all task sets and all interleavings: conservation, exactly_once, running_le_workers, "
+       "dispatcher_index_safe, fifo / fifo_single_worker, panic_reported_once, panic_worker_survives, no_deadlock, "
+       "shutdown_after_all_done, shutdown_returns (a variant decreases on every rule after Shutdown). The executable next is "
+       "proved equivalent to Step; forced schedules (tasks blocked on release channels) compare the real queue's quiescent "
+       "observable with the model's, under GOMAXPROCS 1 and default.",
+  note="Go scheduler fairness is outside the model; random schedules are sampled by a child-process stress oracle judged "
+       "against the property directly (crash or hang = violation with the configuration as replay); Submit(nil) and Submit "
+       "after Shutdown are outside the domain; nil/panicking recovery handler only in stress.",
+  ref="DESIGN.md section 5 C15"),
+ "C19": dict(
+  text="14 Lean theorems about the executable file-system model of tar/zip ExtractWithMask and EnsureNoSymlinks (directories, "
+       "inodes with hard links, symlinks, textual prefix test, MkdirAll, open/truncate, Link, Symlink, masks, first error "
+       "stops): lexical_check_spec, extract_contained / extract_contained_inodes / extract_no_outside_link for every archive "
+       "and initial tree (links included, thanks to the guard), extract_wf, ensureNoSymlinks_spec, guard_makes_lexical, "
+       "payload_error_propagates, first_error_stops, entry_reproduced and extract_reproduces_partial (tar). Each line builds a "
+       "real archive, extracts into a fresh sandbox and compares the ENTIRE tree under and beside the destination.",
+  note="extract_reproduces is proved for tar under a semantic no-conflict condition only (full statement kept as "
+       "*_Statement; zip analogue and exactness covered by the differential run); kernel path resolution is trusted to match "
+       "the model; a PRE-EXISTING hard link inside the destination to an outside file is outside the statement (it speaks of "
+       "links created by earlier entries); umask set to 0 by the harness.",
+  ref="DESIGN.md section 5 C19"),
  "C03": dict(
   text="47 Lean theorems about the executable model of f64.Int/f128.Int (raw values with Go's wrap-around): Add/Sub exact, "
        "Mul/Div/Mod = truncated exact result, Trunc/Ceil/Round (halves away from zero, both signs), Abs/Neg/Min/Max/Inc/Dec/"
